@@ -237,3 +237,68 @@ M("C05", "recover-explicit-keys-default-iv", "c2.py", _CALL,
   "decrypt_packet(enc_packet, aes_key=keys.aes_key, hmac_key=keys.hmac_key, verify=self.verify_hmac)", "C05.R8")
 M("C05", "recover-verify-off", "c2.py", _CALL,
   "decrypt_packet(enc_packet, verify=False, **keys._asdict())", "C05.R8")
+
+# ================================================================================================ R4 / R7: offset walk
+# the client reader walks ONE buffer by an offset instead of re-wrapping / cutting down the remainder; the loop must run
+# while a complete frame is left (the smallest frame is 4 + 16 + 16 = 36 bytes: a plaintext of 0..15 bytes)
+_CLIENT_WALK = (
+    "        data = self.output or b\"\"\n        min_frame = 4 + AES.block_size + 16\n        offset = {start}\n"
+    "        while {test}:\n            size = u32be({hdr})\n            offset += 4\n"
+    "            ciphertext = data[offset : offset + size - 16]\n            signature = data[offset + size - 16 : offset + size{cut}]\n"
+    "            offset += size\n            yield EncryptedPacket(ciphertext, signature)\n"
+)
+
+
+def _walk(id_, expect=None, **kw):
+    a = dict(start="0", test="len(data) - offset >= min_frame", hdr="data[offset : offset + 4]", cut="")
+    a.update(kw)
+    new = _CLIENT_WALK.format(**a)
+    if expect is None:
+        T("C05", id_, "c2.py", _CLIENT, new, edits=[_IMPORT, ("c2.py", _CLIENT, new)])
+    else:
+        M("C05", id_, "c2.py", _CLIENT, new, expect, edits=[_IMPORT, ("c2.py", _CLIENT, new)])
+
+
+_walk("twin-client-offset-walk")
+_walk("twin-client-offset-walk-lt-len", test="offset < len(data)")
+_walk("twin-client-offset-walk-header-fits", test="offset + 4 <= len(data)")
+_walk("twin-client-offset-walk-rest-truthy", test="data[offset:]")
+_walk("client-offset-walk-mirrored-strict", "C05.R7", test="offset + min_frame < len(data)")
+_walk("client-offset-walk-not-equal-min", "C05.R7", test="len(data) - offset != 36 and offset < len(data)")
+_walk("client-offset-walk-runs-on-empty", "C05.R7", test="offset <= len(data)")
+_walk("client-offset-walk-stale-header", "C05.R7", hdr="data[:4]")
+_walk("client-offset-walk-skips-first-bytes", "C05.R7", start="4")
+_walk("client-offset-walk-short-signature", "C05.R4", cut=" - 8")
+
+_CLIENT_WALK_FRAME = (
+    "        data = self.output or b\"\"\n        total = len(data)\n        offset = 0\n        while True:\n"
+    "            if {guard}:\n                break\n            size = int.from_bytes(data[offset : offset + 4], \"{order}\")\n"
+    "            frame = data[offset + 4 : offset + 4 + size]\n            offset += {adv}\n"
+    "            yield EncryptedPacket(frame[:-16], frame[-16:])\n"
+)
+T("C05", "twin-client-offset-walk-frame-guard", "c2.py", _CLIENT, _CLIENT_WALK_FRAME.format(guard="offset >= total", order="big", adv="4 + size"))
+T("C05", "twin-client-offset-walk-frame-guard-min", "c2.py", _CLIENT, _CLIENT_WALK_FRAME.format(guard="total - offset < 36", order="big", adv="4 + size"))
+M("C05", "client-offset-walk-guard-drops-minimal-frame", "c2.py", _CLIENT,
+  _CLIENT_WALK_FRAME.format(guard="total - offset <= 36", order="big", adv="4 + size"), "C05.R7")
+M("C05", "client-offset-walk-frame-advance-without-header", "c2.py", _CLIENT,
+  _CLIENT_WALK_FRAME.format(guard="offset >= total", order="big", adv="size"), "C05.R7")
+M("C05", "client-offset-walk-frame-little-endian", "c2.py", _CLIENT,
+  _CLIENT_WALK_FRAME.format(guard="offset >= total", order="little", adv="4 + size"), "C05.R7")
+
+# the same necessary condition on the other loop shapes: remainder re-wrapped in a BytesIO (A), one stream walked by
+# tell() (B), a memoryview cut down each round (C)
+_CLIENT_REWRAP = _CLIENT.replace("        while data:\n", "        while {test}:\n")
+T("C05", "twin-client-rewrap-len-at-least-min", "c2.py", _CLIENT, _CLIENT_REWRAP.format(test="len(data) >= 36"))
+T("C05", "twin-client-rewrap-len-positive", "c2.py", _CLIENT, _CLIENT_REWRAP.format(test="len(data) > 0"))
+M("C05", "client-rewrap-len-above-min", "c2.py", _CLIENT, _CLIENT_REWRAP.format(test="len(data) > 36"), "C05.R7")
+M("C05", "client-rewrap-leading-guard-drops-minimal-frame", "c2.py", _CLIENT,
+  _CLIENT.replace("            fobj = io.BytesIO(data)\n", "            if len(data) < 40:\n                break\n            fobj = io.BytesIO(data)\n"), "C05.R7")
+T("C05", "twin-client-one-stream-room-for-header", "c2.py", _CLIENT,
+  _CLIENT_ONE.format(rewind="        stream.seek(0)\n", op="+ 4 <=", mid=""))
+M("C05", "client-one-stream-room-for-more-than-min", "c2.py", _CLIENT,
+  _CLIENT_ONE.format(rewind="        stream.seek(0)\n", op="+ 36 <", mid=""), "C05.R7")
+_CLIENT_VIEW_LEN = _CLIENT_VIEW.replace("        while view:\n", "        while len(view) {test}:\n")
+T("C05", "twin-client-memoryview-len-test", "c2.py", _CLIENT, _CLIENT_VIEW_LEN.format(src="view", adv="4 + size", test=">= 4 + 16 + 16"),
+  edits=[_IMPORT, ("c2.py", _CLIENT, _CLIENT_VIEW_LEN.format(src="view", adv="4 + size", test=">= 4 + 16 + 16"))])
+M("C05", "client-memoryview-len-above-min", "c2.py", _CLIENT, _CLIENT_VIEW_LEN.format(src="view", adv="4 + size", test="> 4 + 16 + 16"), "C05.R7",
+  edits=[_IMPORT, ("c2.py", _CLIENT, _CLIENT_VIEW_LEN.format(src="view", adv="4 + size", test="> 4 + 16 + 16"))])
